@@ -255,6 +255,14 @@ class _Stmts(ast.NodeTransformer):
                 sub = ast.Subscript(value=copy.deepcopy(node.value), slice=ast.Constant(value=i), ctx=ast.Load())
                 out.append(ast.copy_location(ast.Assign(targets=[t], value=sub), node))
             return out
+        # a, b = pair   with  pair = (x, y)  a display of plain paths bound once, right before, and read only here
+        if len(node.targets) == 1 and isinstance(node.targets[0], (ast.Tuple, ast.List)) and \
+                isinstance(node.value, ast.Name) and node.value.id in getattr(self, 'tuple_temps', {}):
+            disp = self.tuple_temps[node.value.id]
+            if len(disp.elts) == len(node.targets[0].elts):
+                node.value = copy.deepcopy(disp)
+                self.changed = True
+                return self.visit_Assign(node)
         # a starred display inside a display is its elements:  [], *([], [])  ->  [], [], []
         if isinstance(node.value, (ast.Tuple, ast.List)) and any(
                 isinstance(e, ast.Starred) and isinstance(e.value, (ast.Tuple, ast.List)) for e in node.value.elts):
@@ -660,6 +668,30 @@ def normalize_function(fn, resolver=None, list_attrs=frozenset(), consts=None, c
     # N1-N3
     st = _Stmts()
     st.list_names = _list_locals(new)
+    # tuple temporaries:  duals = a.pi, b.pi   immediately followed by   x, y = duals   (single use)
+    st.tuple_temps = {}
+    for blk_owner in _walk_scope(new):
+        for fld in ('body', 'orelse', 'finalbody'):
+            blk = getattr(blk_owner, fld, None)
+            if not isinstance(blk, list):
+                continue
+            for s1_, s2_ in zip(blk, blk[1:]):
+                if isinstance(s1_, ast.Assign) and len(s1_.targets) == 1 and isinstance(s1_.targets[0], ast.Name) and \
+                        isinstance(s1_.value, ast.Tuple) and all(_is_path(e) for e in s1_.value.elts) and \
+                        isinstance(s2_, ast.Assign) and isinstance(s2_.value, ast.Name) and \
+                        s2_.value.id == s1_.targets[0].id:
+                    nm = s1_.targets[0].id
+                    uses = sum(1 for n in _walk_scope(new) if isinstance(n, ast.Name) and n.id == nm)
+                    if uses == 2:
+                        st.tuple_temps[nm] = s1_.value
+    for blk in [new.body]:
+        for s1_, s2_ in zip(blk, blk[1:]):
+            if isinstance(s1_, ast.Assign) and len(s1_.targets) == 1 and isinstance(s1_.targets[0], ast.Name) and \
+                    isinstance(s1_.value, ast.Tuple) and all(_is_path(e) for e in s1_.value.elts) and \
+                    isinstance(s2_, ast.Assign) and isinstance(s2_.value, ast.Name) and s2_.value.id == s1_.targets[0].id:
+                nm = s1_.targets[0].id
+                if sum(1 for n in _walk_scope(new) if isinstance(n, ast.Name) and n.id == nm) == 2:
+                    st.tuple_temps[nm] = s1_.value
     st.empty_started = frozenset(
         n.targets[0].id for n in _walk_scope(new)
         if isinstance(n, ast.Assign) and len(n.targets) == 1 and isinstance(n.targets[0], ast.Name) and
@@ -920,7 +952,9 @@ def _sink_consumer(fn):
                         sum(1 for n in ast.walk(part) if isinstance(n, ast.Name) and n.id == t) == 1 and \
                         not any(isinstance(n, (ast.Lambda, ast.ListComp, ast.GeneratorExp, ast.SetComp, ast.DictComp))
                                 for n in ast.walk(part)) and \
-                        _pure_value(s1.body[-1].value) and _pure_value(s1.orelse[-1].value):
+                        ((_pure_value(s1.body[-1].value) and _pure_value(s1.orelse[-1].value)) or
+                         (isinstance(s2, (ast.Assign, ast.Return)) and isinstance(s2.value, ast.Name) and
+                          s2.value.id == t)):
                     for arm in (s1.body, s1.orelse):
                         val = arm[-1].value
                         cons = _Subst({t: val}).visit(copy.deepcopy(s2))
